@@ -74,3 +74,60 @@ def check_C01(run, replay):
     cases = read_ndjson(cases_path)
     rows = oracle_pipeline(run, "MC_Eval", "eval", cases_path, timeout=3000)
     absorb(run, rows, {c["id"]: c for c in cases})
+
+
+def enumerate_pipeline(run, module, what, env=None, timeout=900, tag="OUT", extra_replay=None, name="enum",
+                       simulate=None, depth=None, workers=16):
+    """TLC enumerates cases and their specified outcome (spec/<module>) -> harness replay <what>"""
+    res = tlc(module, env=env, timeout=timeout, simulate=simulate, depth=depth, workers=workers)
+    run.add_tlc(res)
+    recs = res.out(tag)
+    exp_path = run.path(name + ".exp.ndjson")
+    write_ndjson(exp_path, [{"id": n, "exp": v} for n, (_, v) in enumerate(recs)])
+    out_path = run.path(name + ".res.ndjson")
+    args = ["replay", what, "--exp", exp_path, "--out", out_path]
+    if extra_replay:
+        args += extra_replay
+    harness(args)
+    return {n: v for n, (_, v) in enumerate(recs)}, read_ndjson(out_path)
+
+
+def replay_pipeline(run, what, case, extra_replay=None):
+    """re-run one emitted case (a --replay file) through the harness"""
+    exp_path = run.path("replay.exp.ndjson")
+    write_ndjson(exp_path, [{"id": 0, "exp": case}])
+    out_path = run.path("replay.res.ndjson")
+    args = ["replay", what, "--exp", exp_path, "--out", out_path]
+    if extra_replay:
+        args += extra_replay
+    harness(args)
+    return {0: case}, read_ndjson(out_path)
+
+
+def mismatch_sig(prefix):
+    def f(r, case):
+        ms = r.get("mismatch") or [{}]
+        m = ms[0]
+        return "%s:%s:%s" % (prefix, m.get("class", "-"), m.get("what", r.get("what", "violation")))
+    return f
+
+
+# ------------------------------------------------------------------------------------------ C18
+LEVELS["C18"] = "model_checking"
+
+
+def check_C18(run, replay):
+    run.rule = ("TLC enumerates every reduced grid profile (denominators <= MAXDEN) on three infosets (2, 3, 2 actions) x "
+                "every threshold in {each probability, each midpoint of two probabilities, half of each probability, "
+                "-1, 0, 1, 2, NaN, +inf, -inf}; checks TruncValid / SupportExact / Proportional / NoOpBelowMin / Idempotent "
+                "of the specified Truncate on each; each case is replayed into from_named -> truncate -> dense vector; "
+                "non-trivial = some infoset has an action above the threshold; distinct by canonical JSON")
+    run.assumptions = ["probabilities w/total and thresholds n/d are correctly rounded f64 divisions of small integers, so "
+                       "comparisons at a probability are decided identically in f64 and in exact arithmetic"]
+    if replay:
+        cases, rows = replay_pipeline(run, "trunc", replay_case(replay)["case"])
+    else:
+        maxden = 3 if run.tier == "quick" else 5
+        cases, rows = enumerate_pipeline(run, "MC_Trunc", "trunc", env={"MAXDEN": maxden}, timeout=3000)
+        run.exhaustive = True
+    absorb(run, rows, cases, mismatch_sig("truncate"))
